@@ -199,6 +199,7 @@ def checkLimit (j : Json) : Except String Verdict := do
       | some inb => st := limitApply port st inb
       | none => pure ()
     | "install" => st := limitInstall st
+    | "rejected" => pure ()       -- a response that was NACKed: no step of the model, nothing may change
     | "update" =>
       let inb ← match jObj? e "inbound" with
         | some c => do pure (some (← parseChains c))
